@@ -152,8 +152,15 @@ fn check_seq(seq: &[K], big: usize, key_subj: &stun_rs::HMACKey, key_raw: &[u8],
     // sequences up to length 4: every construction route of every decoder configuration (builder calls in every order,
     // repeated calls, clones, DecoderContext::default(), MessageDecoder::default()) must agree with the canonical decoder
     let routes = if big == 0 && seq.len() <= 4 { Some(cu::all_routes(Some(key_subj), &cu::all_opts())) } else { None };
-    for bad in &subsets {
-        let macs: Vec<Mac> = (0..seq.len()).map(|i| if bad.contains(&i) { Mac::Bad } else { Mac::Good }).collect();
+    // ... and one more variant: every repeated attribute carries a verbatim COPY of the value of the first attribute of its
+    // kind (a wrong value for its own position that equals an admitted attribute's value)
+    let dups: Vec<usize> = (0..seq.len()).filter(|i| seq[*i] != K::O && seq[..*i].contains(&seq[*i])).collect();
+    let mut variants: Vec<(Vec<usize>, bool)> = subsets.iter().map(|b| (b.clone(), false)).collect();
+    if !dups.is_empty() {
+        variants.push((dups, true));
+    }
+    for (bad, copies) in &variants {
+        let macs: Vec<Mac> = (0..seq.len()).map(|i| if bad.contains(&i) { if *copies { Mac::SameAsFirst } else { Mac::Bad } } else { Mac::Good }).collect();
         let bytes = ref_encode_with(&lm, Some(key_raw), &macs);
         let replay = || json!({"kind": "sequence", "sequence": show(seq), "first_ordinary_is_data_of_bytes": big, "wrong_values_at": bad, "bytes": hex(&bytes)});
         if let Some(rt) = &routes {
@@ -377,7 +384,7 @@ pub fn run(ctx: &RunCtx) -> i32 {
         rep,
         Finish {
             level: "exploration",
-            rule: format!("all {} sequences of length 0..=8 over {{ordinary, MI, SHA256, FINGERPRINT}} built by the reference codec; wrong-value variants: all subsets of verifiable attributes up to length {}, beyond that none / each single / all; each byte string decoded under all 16 option combinations and without context and compared with the 12-line admit rule; the agent's iterator compared on every sequence; for sequences up to length 4 every construction route of every decoder configuration (builder calls in every order, a repeated call, clones of decoder and context, DecoderContext::default(), MessageDecoder::default()) must give the canonical decoder's result; every sequence of length 1..=5 (thorough 6) containing an ordinary attribute again with the first ordinary attribute a DATA blob of 1000 / 4100 / 20,000 / 65,000 bytes (wrong values: none / each single / all). Non-trivial = distinct (sequence, wrong-set, options) triple whose result agreed with the rule", total, full_subsets_upto),
+            rule: format!("all {} sequences of length 0..=8 over {{ordinary, MI, SHA256, FINGERPRINT}} built by the reference codec; wrong-value variants: all subsets of verifiable attributes up to length {}, beyond that none / each single / all, plus one variant in which every repeated attribute is a verbatim copy of the first of its kind; each byte string decoded under all 16 option combinations and without context and compared with the 12-line admit rule; the agent's iterator compared on every sequence; for sequences up to length 4 every construction route of every decoder configuration (builder calls in every order, a repeated call, clones of decoder and context, DecoderContext::default(), MessageDecoder::default()) must give the canonical decoder's result; every sequence of length 1..=5 (thorough 6) containing an ordinary attribute again with the first ordinary attribute a DATA blob of 1000 / 4100 / 20,000 / 65,000 bytes (wrong values: none / each single / all). Non-trivial = distinct (sequence, wrong-set, options) triple whose result agreed with the rule", total, full_subsets_upto),
             assumptions: vec![
                 "ordinary attributes are PRIORITY with distinct values (all lengths), and for sequences up to length 5 / 6 also attributes of unregistered types (comprehension-optional 0xFF31, comprehension-required 0x7F31) and SOFTWARE".into(),
                 "with validation and no key an admitted MAC cannot validate (library contract), FINGERPRINT needs no key".into(),
